@@ -3,3 +3,112 @@
 // rpki::rtr::payload::Action: a plain two-variant Copy enum in rpki.
 #[derive(Clone, Copy)]
 pub enum Action { Announce, Withdraw }
+
+// std: `impl<A: Clone, B: Clone> Clone for (A, B)` clones componentwise. Verus cannot express the
+// built-in tuple impl, so rewrite R11 turns `x.clone()` on the listed pair-typed variables into
+// this function (ASSUMED: the std semantics).
+#[verifier::external_body]
+pub fn clone_pair<A: Clone, B: Clone>(t: &(A, B)) -> (r: (A, B))
+    ensures
+        call_ensures(A::clone, (&t.0,), r.0),
+        call_ensures(B::clone, (&t.1,), r.1),
+{ unimplemented!() }
+
+// std: `Iterator::cloned` over an iterator of `&(A, B)`. Verus has no specification for `cloned`,
+// rejects one (provided trait method), and cannot resolve `Cloned<I>::Item` for tuple items (built-in
+// tuple Clone). Rewrite R11 therefore turns `it.cloned()` into `iter_cloned_pairs(it)`, which returns
+// this opaque stand-in iterator. ASSUMED (the std semantics of the adapter): it yields a
+// componentwise clone of every item of `it`, in order, and is lawful, finite and exhausted exactly
+// when `it` is.
+#[verifier::external_body]
+#[verifier::reject_recursive_types(I)]
+pub struct ClonedPairs<I> { _inner: I }
+
+impl<'a, A: 'a + Clone, B: 'a + Clone, I: Iterator<Item = &'a (A, B)>> Iterator for ClonedPairs<I> {
+    type Item = (A, B);
+    #[verifier::external_body]
+    fn next(&mut self) -> Option<(A, B)> { unimplemented!() }
+}
+
+#[verifier::external_body]
+pub fn iter_cloned_pairs<'a, A: 'a + Clone, B: 'a + Clone, I: Iterator<Item = &'a (A, B)>>(it: I)
+    -> (r: ClonedPairs<I>)
+    ensures
+        it.obeys_prophetic_iter_laws() ==> r.obeys_prophetic_iter_laws(),
+        (r.decrease() is Some) == (it.decrease() is Some),
+        r.remaining().len() <= it.remaining().len(),
+        r.will_return_none() ==> it.will_return_none() && r.remaining().len() == it.remaining().len(),
+        forall|k: int| 0 <= k < r.remaining().len() ==>
+            call_ensures(A::clone, (&it.remaining()[k].0,), (#[trigger] r.remaining()[k]).0)
+            && call_ensures(B::clone, (&it.remaining()[k].1,), r.remaining()[k].1),
+{ unimplemented!() }
+
+// ---------------------------------------------------------------- ASPA payload types (rpki crate)
+// rpki::resources::Asn: an opaque Copy value with a total order (derive(Ord) on a u32 newtype in
+// rpki). Its order is not modelled; `total_order::<Asn>()` is an explicit precondition wherever used.
+#[verifier::external_body]
+pub struct Asn { _opaque: () }
+impl Clone for Asn {
+    #[verifier::external_body]
+    fn clone(&self) -> (r: Asn) ensures r == *self { unimplemented!() }
+}
+impl Copy for Asn {}
+impl PartialEq for Asn {
+    #[verifier::external_body]
+    fn eq(&self, other: &Asn) -> bool { unimplemented!() }
+}
+impl Eq for Asn {}
+impl PartialOrd for Asn {
+    #[verifier::external_body]
+    fn partial_cmp(&self, other: &Asn) -> Option<Ordering> { unimplemented!() }
+}
+impl Ord for Asn {
+    #[verifier::external_body]
+    fn cmp(&self, other: &Asn) -> Ordering { unimplemented!() }
+}
+
+// rpki::rtr::pdu::ProviderAsns: an opaque value (a byte string in rpki) with derived Clone and
+// PartialEq. ASSUMED: `==` on it decides equality of the value, `clone` returns an equal value.
+#[verifier::external_body]
+pub struct ProviderAsns { _opaque: () }
+impl ProviderAsns {
+    pub uninterp spec fn empty_spec() -> ProviderAsns;
+}
+impl Clone for ProviderAsns {
+    #[verifier::external_body]
+    fn clone(&self) -> (r: ProviderAsns) ensures r == *self { unimplemented!() }
+}
+impl PartialEqSpecImpl for ProviderAsns {
+    open spec fn obeys_eq_spec() -> bool { true }
+    open spec fn eq_spec(&self, other: &ProviderAsns) -> bool { *self == *other }
+}
+impl PartialEq for ProviderAsns {
+    #[verifier::external_body]
+    fn eq(&self, other: &ProviderAsns) -> bool { unimplemented!() }
+}
+
+// rpki::rtr::payload::Aspa: two public fields in rpki. ASSUMED: key() is the customer ASN,
+// withdraw() keeps the customer and has the empty provider set, clone returns an equal value.
+pub struct Aspa {
+    pub customer: Asn,
+    pub providers: ProviderAsns,
+}
+impl Aspa {
+    #[verifier::external_body]
+    pub fn key(&self) -> (r: Asn)
+        ensures r == self.customer,
+    { unimplemented!() }
+
+    #[verifier::external_body]
+    pub fn withdraw(&self) -> (r: Aspa)
+        ensures r == (Aspa { customer: self.customer, providers: ProviderAsns::empty_spec() }),
+    { unimplemented!() }
+}
+impl Clone for Aspa {
+    #[verifier::external_body]
+    fn clone(&self) -> (r: Aspa) ensures r == *self { unimplemented!() }
+}
+
+// routinator's PayloadInfo: not used by the delta code beyond being passed along.
+#[verifier::external_body]
+pub struct PayloadInfo { _opaque: () }
